@@ -8,7 +8,7 @@ if ! git -C /repo diff --quiet; then echo "/repo has uncommitted changes; refusi
 if [[ "$what" == -R:* ]]; then
   git -C /repo show "${what#-R:}" | git -C /repo apply -R || { echo "cannot reverse ${what#-R:}"; exit 2; }
 else
-  git -C /repo apply "$what" || git -C /repo apply -3 "$what" || { echo "cannot apply $what"; git -C /repo checkout -- .; exit 2; }
+  git -C /repo apply "$(realpath "$what")" || git -C /repo apply -3 "$(realpath "$what")" || { echo "cannot apply $what"; git -C /repo checkout -- .; exit 2; }
 fi
 tier=${MUT_TIER:-quick}
 for p in "$@"; do
